@@ -5,7 +5,7 @@
 `all_calls` (one `LuaFunction` per overload and per omitted-default prefix), sorts them into
 `by_count` and writes one C function:
 
-* (up to d761e08 only: exactly one call: the body of `do_function` and `return nresults;`, no test)
+* (up to d74984b only: exactly one call: the body of `do_function` and `return nresults;`, no test)
 * `SH_nargs = lua_gettop(L) [- 1]`, `SH_itype<k> = lua_type(L, k [+ 1])`,
   `switch (SH_nargs)`, per count an `if / else if` chain over `SH_itype<k> == LUA_T...`
   (for count 0: one unconditional compound statement per call), `else luaL_error`,
@@ -172,7 +172,7 @@ def caseOf (k : Kind) (l : Layout) (calls : List Call) (n : Nat) : Option (Nat Ã
 def casesFor (k : Kind) (l : Layout) (calls : List Call) (m : Nat) : List (Nat Ã— List Branch) :=
   (List.range (m + 1)).filterMap (caseOf k l calls)
 
-/-- the code up to d761e08: a name with exactly one call got the bare `do_function` body -/
+/-- the code up to d74984b: a name with exactly one call got the bare `do_function` body -/
 def genSpecial (l : Layout) (k : Kind) (ovs : List Overload) : Body :=
   match luaCalls k ovs with
   | [c] => .single (emitOf k l 0 c)
@@ -182,7 +182,7 @@ def genSpecial (l : Layout) (k : Kind) (ovs : List Overload) : Body :=
 def gen (k : Kind) (ovs : List Overload) : Body :=
   .switch (Layout.fixed k).countOff (casesFor k (Layout.fixed k) (luaCalls k ovs) (maxargs ovs))
 
-/-- the function body written between 5605135 and d761e08 (single-call special case) -/
+/-- the function body written between 5605135 and d74984b (single-call special case) -/
 def genSingleCase (k : Kind) (ovs : List Overload) : Body := genSpecial (Layout.fixed k) k ovs
 
 /-- the function body written before 5605135 (object index ignored, single-call special case) -/
